@@ -285,7 +285,7 @@ func Scenarios(thorough bool) []e1.Scenario {
 // RunInto explores the shared-iterator scenarios and merges the results into r.
 func RunInto(o *core.Options, r *core.Report) {
 	scs := Scenarios(o.Thorough())
-	b := e1.Budget{Bounds: []int{0, 1, 2, -1}, Required: 2, Prune: true, Elide: true, PerScen: 30 * time.Second}
+	b := e1.Budget{Bounds: []int{0, 1, 2, -1}, Required: 2, Prune: true, Elide: true, PerScen: 30 * time.Second, DevBounds: []int{1, 2, 3}, DevRequired: 2, DevPerScen: 10 * time.Second}
 	if o.Thorough() {
 		b.PerScen = 8 * time.Minute
 		b.Required = 3
